@@ -306,6 +306,12 @@ pub fn c08(g: &mut Gen) {
             lines.push(format!("bv A it zero : n N{} n b l", k));
             lines.push(format!("bv A it one : N{} N{} l", k, k));
             lines.push(format!("bv A it sel {} : n b N{} l", k, k));
+            // the FIRST access from the back is a skip
+            lines.push(format!("bv A it one : B{} l n b", k));
+            lines.push(format!("bv A it zero : B{} l n b", k));
+            lines.push(format!("bv A it sel 0 : B{} n l", k));
+            lines.push(format!("bv A it succ 0 : B{} n l", k));
+            lines.push(format!("bv A it pred {} : B{} n l", len - 1, k));
         }
         g.group(lines);
     }
@@ -370,6 +376,8 @@ pub fn c10_bv(g: &mut Gen) {
         vec![], vec![true], vec![false], vec![true, false, true, true, false],
         (0..70).map(|i| i % 3 == 0 || i == 64 || i == 63).collect(),
         (0..130).map(|i| i == 0 || i == 129 || i == 64).collect(),
+        (0..64).map(|i| i % 5 == 0 || i == 63).collect(),
+        (0..128).map(|i| i % 9 == 1 || i == 127 || i == 64).collect(),
     ];
     for bits in shapes {
         let ones = bits.iter().filter(|b| **b).count() as u64;
